@@ -202,7 +202,7 @@ func cmdCheck(args []string) {
 	isKnown := func(name string) *knownFinding {
 		for i := range known {
 			k := &known[i]
-			if k.Property == def.ID && k.Status == "known" && k.Obligation == name {
+			if k.Property == def.ID && k.Status == "known" && wildMatch(k.Obligation, name) {
 				return k
 			}
 		}
@@ -533,4 +533,24 @@ func cmdJobs(args []string) {
 	}
 	data, _ := json.Marshal(out)
 	os.Stdout.Write(data)
+}
+
+// wildMatch: pattern with '*' wildcards (each matches any run of characters).
+func wildMatch(pat, s string) bool {
+	parts := strings.Split(pat, "*")
+	if len(parts) == 1 {
+		return pat == s
+	}
+	if !strings.HasPrefix(s, parts[0]) {
+		return false
+	}
+	s = s[len(parts[0]):]
+	for _, p := range parts[1 : len(parts)-1] {
+		i := strings.Index(s, p)
+		if i < 0 {
+			return false
+		}
+		s = s[i+len(p):]
+	}
+	return strings.HasSuffix(s, parts[len(parts)-1])
 }
